@@ -51,6 +51,7 @@ type e2e struct {
 	killTorn     int
 	c04          *oC04
 	hq           *HQModel
+	c16          *oC16
 	jobPath      string
 	summary      map[string]any
 }
@@ -397,7 +398,7 @@ func (r *e2e) hook() {
 			}
 		}
 	}
-	if r.sc.StopAtIdle && !r.stopFired && r.idle() {
+	if r.sc.StopAtIdle && !r.stopFired && r.idle() && (r.c16 == nil || r.c16.ready(k)) {
 		c := &ctlState{a: CtlAction{Name: "stop-at-idle", Kind: "stop"}}
 		r.ctl = append(r.ctl, c)
 		r.fire(c)
